@@ -94,6 +94,7 @@ MUTANTS = [
     M('C11-matrix-swapped', 'C11', 'R3/matrix-slot-order', (SVG, '                matrix[(1, 0)],\n                matrix[(0, 1)],', '                matrix[(0, 1)],\n                matrix[(1, 0)],')),
     M('C11-placeholder-order', 'C11', 'R3/matrix-slot-order', (SVG, '"matrix({0} {1} {2} {3} {4} {5})"', '"matrix({0} {2} {1} {3} {4} {5})"')),
     M('C11-svg-fractional', 'C11', 'R4/svg-placements', (SVG, '            let matrix = self.cell.to_cartesian_isometry(position);\n            doc = doc.add(matrix.as_svg()', '            let matrix = position;\n            doc = doc.add(matrix.as_svg()')),
+    M('C11-json-reader-inexact', 'C11', 'R5/json-reader-is-correctly-rounded', ('Cargo.toml', 'serde_json = { version = "~1.0.57", features = ["float_roundtrip"] }', 'serde_json = "~1.0.57"')),
     M('C11-serde-skip', 'C11', 'R1/fields-agree', (WALL, 'pub struct Wallpaper {\n    pub name: String,', 'pub struct Wallpaper {\n    #[serde(skip)]\n    pub name: String,')),
     # C12
     M('C12-disc-gt', 'C12', 'R1/disc', (ATOM2, '(self.position - other.position).norm_squared() < r_squared', '(self.position - other.position).norm_squared() > r_squared')),
